@@ -25,7 +25,8 @@ RULE = ("Hypothesis draws a prior store state (history of 0-5 API calls), a clie
         "first 1000 bytes of content; alpha(client copy) == alpha(API copy) (python_client.log "
         "ignored); a store created by the client opens through the API with the same properties and "
         "vice versa. Non-trivial = >=1 option beyond -pid / -path, or create against an existing store; "
-        "distinct key = (verb, option subset, value classes, prior-state shape, outcome).")
+        "distinct key = (verb, option subset, value classes, prior-state shape, outcome)."
+        ' create also runs against a directory that holds store data but no hashstore.yaml (refused by both, data intact) and against a populated store with the same configuration.')
 ASSUMPTIONS = ["-deletemetadata without -formatid corresponds to deleting the default-namespace document "
                "(what the client substitutes)", "-obj_size values are integer literals (others cannot be "
                "given 'in the type the API requires')", "object / document contents are UTF-8 text"]
